@@ -66,6 +66,9 @@ def shard(ctx):
 
     prof = StreamProfile(knobs_fn=knobs, script_len=ctx.params["script_len"], templates=any_template, op_weights=weights())
     prof.template_prob = 0.5
+    from ..templates import ALL as _ALL
+
+    prof.rotation = list(_ALL)
     run_stream(ctx, prof, [PurityMonitor(ctx, fault_every=ctx.params["fault_every"], fault_points=ctx.params["fault_points"])])
 
 
